@@ -137,6 +137,8 @@ MCTamperMutKinds == {"forge-path", "permute", "dup-shadow", "dup-trail", "drop",
 AllIncKinds == {"empty-vp", "empty-vp-jwt", "decoy-vp", "no-vp", "partial-vp"}
 \* the big family presents the empty presentation in one format only (budget)
 MCIncKindsOf(f) == IF f = "reqs" THEN AllIncKinds \ {"empty-vp-jwt"} ELSE AllIncKinds
+\* incomplete envelopes explored as STATES by the model checker (the printed cases always carry MCIncKindsOf)
+MCIncKindsModel(f) == IF f = "reqs" THEN {"empty-vp", "partial-vp"} ELSE AllIncKinds
 \* hostile envelopes are explored in these shapes
 MCTamperShapes == {"ldp", "jwt", "jwt-arr"}
 \* envelope shapes the driver presents the wallet's own submission in
